@@ -130,8 +130,12 @@ func drawStream(t *rapid.T) cli.StreamDef {
 		}
 	}
 	shape(&sd.Lead, "L")
-	if sd.Multi && sd.Container == "fmp4" {
+	if sd.Multi {
 		nr := rapid.IntRange(0, 3).Draw(t, "nrend")
+		if sd.Container == "mpegts" {
+			// MPEG-TS audio renditions (one AAC track each)
+			nr = rapid.IntRange(0, 2).Draw(t, "nrendTS")
+		}
 		for i := 0; i < nr; i++ {
 			r := cli.PlaylistDef{Name: fmt.Sprintf("aud%d", i), Language: rapid.SampledFrom([]string{"", "en", "de"}).Draw(t, "rlang"), Default: i == 0}
 			a := drawTrack(t, sd.Container, false, fmt.Sprintf("r%d", i))
@@ -227,7 +231,9 @@ func checkDelivery(b *cli.Built, entry string, r *cli.RunResult, firstSeg func(b
 		if int64(got.ClockRate) != rate {
 			return fmt.Sprintf("track %d reported with clock rate %d, expected %d", i, got.ClockRate, rate), st
 		}
-		if e.bp != lead {
+		// (the statement does not cover rendition attributes; checked where the client carries them:
+		// it does not for MPEG-TS renditions)
+		if e.bp != lead && b.Def.Container == "fmp4" {
 			if got.Name != e.bp.Def.Name || got.Language != e.bp.Def.Language || got.IsDefault != e.bp.Def.Default {
 				return fmt.Sprintf("rendition track %d reported as name=%q lang=%q default=%v, advertised name=%q lang=%q default=%v", i, got.Name, got.Language, got.IsDefault, e.bp.Def.Name, e.bp.Def.Language, e.bp.Def.Default), st
 			}
